@@ -107,6 +107,10 @@ type CC struct {
 	// construct the canonical correlations.
 	n int
 
+	// sumWeights is the sum of the observation
+	// weights, or n if the analysis is unweighted.
+	sumWeights float64
+
 	// xd and yd are used for size checks.
 	xd, yd int
 
@@ -172,6 +176,10 @@ func (c *CC) CanonicalCorrelations(x, y mat.Matrix, weights []float64) error {
 	}
 	if weights != nil && len(weights) != c.n {
 		panic("stat: len(weights) != observations")
+	}
+	c.sumWeights = float64(c.n)
+	if weights != nil {
+		c.sumWeights = floats.Sum(weights)
 	}
 
 	// Center and factorize x and y.
@@ -247,7 +255,7 @@ func (c *CC) LeftTo(dst *mat.Dense, spheredSpace bool) {
 	scaleColsReciSqrt(xv, xs)
 
 	dst.Product(xv, xv.T(), dst)
-	dst.Scale(math.Sqrt(float64(c.n-1)), dst)
+	dst.Scale(math.Sqrt(c.sumWeights-1), dst)
 }
 
 // RightTo returns the right eigenvectors of the canonical correlation matrix if
@@ -281,7 +289,7 @@ func (c *CC) RightTo(dst *mat.Dense, spheredSpace bool) {
 	scaleColsReciSqrt(yv, ys)
 
 	dst.Product(yv, yv.T(), dst)
-	dst.Scale(math.Sqrt(float64(c.n-1)), dst)
+	dst.Scale(math.Sqrt(c.sumWeights-1), dst)
 }
 
 func svdFactorizeCentered(work *mat.SVD, m mat.Matrix, weights []float64) (svd *mat.SVD, ok bool) {
